@@ -87,7 +87,7 @@ def encrypted_record(b):
 
 def ccs(b):
     x = b.u(8)
-    b.guard(ne(x, N(1)), "Verify")
+    b.guard(ne(x, N(1)))
     return unit(MSG + "ChangeCipherSpec")
 
 
@@ -109,7 +109,7 @@ def appdata(b):
 def heartbeat(b, record_len):
     t = b.u(8)
     pl = b.u(16)
-    b.guard(lt(record_len, N(3)), "Verify")
+    b.guard(lt(record_len, N(3)))
     payload = b.bytes(pl)
     return ["vec", [ctor(MSG + "Heartbeat", struct(TM + "TlsMessageHeartbeat", heartbeat_type=nt(TH + "TlsHeartbeatMessageType", t), payload_len=pl, payload=payload))]]
 
@@ -122,7 +122,7 @@ def record_content(b, hdr):
         ([0x16], lambda nb: plus(nb, handshake_message)),
         ([0x17], lambda nb: ["vec", [appdata(nb)]]),
         ([0x18], lambda nb: nb.complete(lambda n2: heartbeat(n2, fld(hdr, "len")))),
-    ], lambda nb: nb.fail("Switch"))
+    ], lambda nb: nb.fail())
 
 
 def record_content_standalone(b):
@@ -143,14 +143,14 @@ def plaintext_records(b):
 # ------------------------------------------------------------------ handshake (C04)
 def session_id(b):
     s = b.u(8)
-    b.guard(lt(N(32), s), "Verify")
+    b.guard(lt(N(32), s))
     return b.cond(lt(N(0), s), lambda nb: nb.bytes(s))
 
 
 def list16(b, n, elem_ctor):
     """n bytes of big-endian u16 elements; n = 0 -> empty; odd or overlong n rejected"""
     def nonempty(nb):
-        nb.guard(lor(eq(op("%", n, N(2)), N(1)), lt(REMAINING, n)), "LengthValue")
+        nb.guard(lor(eq(op("%", n, N(2)), N(1)), lt(REMAINING, n)))
         r = nb.bytes(n, "X")
         return ["map_chunks2", r, ["lam", 1, ctor(elem_ctor, ["be16", ["lp", 0]])]]
     return b.ite(eq(n, N(0)), lambda nb: EMPTYVEC, nonempty)
@@ -158,7 +158,7 @@ def list16(b, n, elem_ctor):
 
 def list8(b, n, elem_ctor):
     def nonempty(nb):
-        nb.guard(lt(REMAINING, n), "LengthValue")
+        nb.guard(lt(REMAINING, n))
         r = nb.bytes(n, "X")
         return ["map_each", r, ["lam", 1, ctor(elem_ctor, ["lp", 0])]]
     return b.ite(eq(n, N(0)), lambda nb: EMPTYVEC, nonempty)
@@ -192,7 +192,7 @@ def server_hello_contents(b):
     v = b.peek(lambda nb: nb.u(16))
     return b.switch(v, [([0x0303], lambda nb: server_hello(nb, True)), ([0x0302], lambda nb: server_hello(nb, True)),
                         ([0x0301], lambda nb: server_hello(nb, True)), ([0x0300], lambda nb: server_hello(nb, False))],
-                    lambda nb: nb.fail("Tag"))
+                    lambda nb: nb.fail())
 
 
 def server_hello_draft18(b):
@@ -208,11 +208,11 @@ def server_hello_msg(b):
     v = b.peek(lambda nb: nb.u(16))
     sh = lambda e: (lambda nb: ctor(MH + "ServerHello", server_hello(nb, e)))
     return b.switch(v, [([0x7f12], server_hello_draft18), ([0x0303], sh(True)), ([0x0302], sh(True)), ([0x0301], sh(True)), ([0x0300], sh(False))],
-                    lambda nb: nb.fail("Tag"))
+                    lambda nb: nb.fail())
 
 
 def new_session_ticket(b, n):
-    b.guard(lt(n, N(4)), "Verify")
+    b.guard(lt(n, N(4)))
     hint = b.u(32)
     ticket = b.bytes(op("-", n, N(4)))
     return ctor(MH + "NewSessionTicket", struct(TH + "TlsNewSessionTicketContent", ticket_lifetime_hint=hint, ticket=ticket))
@@ -291,7 +291,7 @@ def handshake_message(b):
     t = b.u(8)
     n = b.u(24)
     raw = b.bytes(n)
-    msg = b.sub(raw, lambda nb: nb.switch(t, handshake_body_arms(n), lambda n2: n2.fail("Switch")))
+    msg = b.sub(raw, lambda nb: nb.switch(t, handshake_body_arms(n), lambda n2: n2.fail()))
     return ctor(MSG + "Handshake", msg)
 
 
@@ -327,7 +327,7 @@ def named_groups_whole(b):
     n = REMAINING
 
     def nonempty(nb):
-        nb.guard(lor(eq(op("%", n, N(2)), N(1)), lt(REMAINING, n)), "LengthValue")
+        nb.guard(lor(eq(op("%", n, N(2)), N(1)), lt(REMAINING, n)))
         r = nb.bytes(n, "X")
         return ["map_chunks2", r, ["lam", 1, ctor(EC + "NamedGroup", ["be16", ["lp", 0]])]]
     return b.ite(eq(n, N(0)), lambda nb: EMPTYVEC, nonempty)
@@ -337,7 +337,7 @@ def versions_whole(b):
     n = REMAINING
 
     def nonempty(nb):
-        nb.guard(lor(eq(op("%", n, N(2)), N(1)), lt(REMAINING, n)), "LengthValue")
+        nb.guard(lor(eq(op("%", n, N(2)), N(1)), lt(REMAINING, n)))
         r = nb.bytes(n, "X")
         return ["map_chunks2", r, ["lam", 1, ctor(TH + "TlsVersion", ["be16", ["lp", 0]])]]
     return b.ite(eq(n, N(0)), lambda nb: EMPTYVEC, nonempty)
@@ -381,7 +381,7 @@ def ext_opaque(variant):
 
 def ext_empty(variant):
     def g(b, L):
-        b.guard(ne(L, N(0)), "Verify")
+        b.guard(ne(L, N(0)))
         return unit(EXT + variant)
     return g
 
@@ -400,7 +400,7 @@ def ext_supported_versions(b, L):
 
     def lst(nb):
         nb.u(8)
-        nb.guard(eq(L, N(0)), "Verify")
+        nb.guard(eq(L, N(0)))
         v = nb.within(op("-", L, N(1)), versions_whole)
         return ctor(EXT + "SupportedVersions", v)
     return b.ite(eq(L, N(2)), single, lst)
@@ -507,7 +507,7 @@ def tagged(ty, fixed_len=None):
         b.tag([ty >> 8, ty & 0xff])
         n = b.u(16)
         if fixed_len is not None:
-            b.guard(ne(n, N(fixed_len)), "Verify")
+            b.guard(ne(n, N(fixed_len)))
         d = b.bytes(n)
         return b.sub(d, lambda nb: EXT_CONTENT[ty][0](nb, n))
     return g
@@ -561,7 +561,7 @@ def dtls_handshake_message(b):
             ([16], lambda n2: ctor(DMH + "ClientKeyExchange", ctor(TH + "TlsClientKeyExchangeContents::Unknown", n2.bytes(length)))),
             ([11], lambda n2: ctor(DMH + "Certificate", certificate(n2))),
         ]
-        return nb.switch(t, arms, lambda n2: n2.fail("Switch"))
+        return nb.switch(t, arms, lambda n2: n2.fail())
 
     body = b.sub(raw, lambda nb: nb.ite(is_fragment, lambda n2: ctor(DMH + "Fragment", n2.whole()), whole_body))
     return ctor(DMSG + "Handshake", struct(DT + "DTLSMessageHandshake", msg_type=nt(TH + "TlsHandshakeType", t), length=length, message_seq=seq,
@@ -570,7 +570,7 @@ def dtls_handshake_message(b):
 
 def dtls_ccs(b):
     x = b.u(8)
-    b.guard(ne(x, N(1)), "Verify")
+    b.guard(ne(x, N(1)))
     return unit(DMSG + "ChangeCipherSpec")
 
 
@@ -581,7 +581,7 @@ def dtls_alert(b):
 def dtls_record_content(b, hdr):
     ct = unwrap(fld(hdr, "content_type"))
     return b.switch(ct, [([0x14], lambda nb: plus(nb, dtls_ccs)), ([0x15], lambda nb: plus(nb, dtls_alert)), ([0x16], lambda nb: plus(nb, dtls_handshake_message))],
-                    lambda nb: nb.fail("Switch"))
+                    lambda nb: nb.fail())
 
 
 def dtls_record_content_standalone(b):
@@ -625,7 +625,7 @@ def ec_parameters(b):
     ct = b.u(8)
     content = b.switch(ct, [([1], lambda nb: ctor(EC + "ECParametersContent::ExplicitPrime", explicit_prime(nb))),
                             ([3], lambda nb: ctor(EC + "ECParametersContent::NamedGroup", nt(EC + "NamedGroup", nb.u(16))))],
-                       lambda nb: nb.fail("Switch"))
+                       lambda nb: nb.fail())
     return struct(EC + "ECParameters", curve_type=nt(EC + "ECCurveType", ct), params_content=content)
 
 
